@@ -7,6 +7,7 @@ require (
 	github.com/aperturerobotics/bifrost v0.0.0
 	github.com/aperturerobotics/cli v1.1.0
 	github.com/aperturerobotics/controllerbus v0.53.1
+	github.com/aperturerobotics/go-websocket v1.8.15-0.20260329113544-74dbfb8f11c6
 	github.com/aperturerobotics/protobuf-go-lite v0.12.2
 	github.com/aperturerobotics/starpc v0.49.3
 	github.com/aperturerobotics/util v1.33.1
@@ -23,7 +24,6 @@ require (
 require (
 	github.com/aperturerobotics/entitygraph v0.11.0 // indirect
 	github.com/aperturerobotics/go-multiaddr v0.16.2-0.20260312224838-f595884c2621 // indirect
-	github.com/aperturerobotics/go-websocket v1.8.15-0.20260329113544-74dbfb8f11c6 // indirect
 	github.com/aperturerobotics/json-iterator-lite v1.0.1-0.20260223122953-12a7c334f634 // indirect
 	github.com/bwesterb/go-ristretto v1.2.3 // indirect
 	github.com/ghodss/yaml v1.0.0 // indirect
